@@ -7,6 +7,7 @@ import SymfcModel.Lemmas.EigBook
 import SymfcModel.Lemmas.LinAlg
 import SymfcModel.Lemmas.EigAssemble
 import SymfcModel.Lemmas.BlockDiag
+import SymfcModel.Lemmas.FindBlocks
 namespace Symfc.C15
 open Symfc
 
@@ -84,6 +85,52 @@ theorem block_assembly_spans_exactly_the_unit_eigenspace {K ι κ β : Type*} [C
       ∃ a : κ → K, (∀ k, owner k ≠ b → a k = 0) ∧ x = E.mulVec a) :
     E.transpose * E = 1 ∧ M * E = E ∧ ∀ x, M.mulVec x = x ↔ ∃ a, x = E.mulVec a :=
   BlockDiag.blockwise_eigvecs blk owner M E hM hsupp horth heig hspan
+
+/-- C15.a (block finder, F1): for ANY matrix the blocks computed by the model's `findBlocks` (the model of
+    `_find_projector_blocks`) partition the indices `0 … n-1`: every block is non-empty and strictly ascending, the
+    blocks are pairwise disjoint, an index lies in some block iff it is `< n`, no index occurs twice, the head of a
+    block is its smallest element and the blocks are listed in increasing order of that element. -/
+theorem found_blocks_partition_the_indices (m : IMat) :
+    (∀ b ∈ findBlocks m, b ≠ []) ∧
+    (∀ b ∈ findBlocks m, b.Pairwise (· < ·)) ∧
+    (findBlocks m).Pairwise (fun b c => ∀ x, x ∈ b → x ∉ c) ∧
+    (∀ x, x < m.size ↔ ∃ b ∈ findBlocks m, x ∈ b) ∧
+    (findBlocks m).flatten.Nodup ∧
+    (∀ b ∈ findBlocks m, ∀ x ∈ b, b.headD 0 ≤ x) ∧
+    (findBlocks m).Pairwise (fun b c => b.headD 0 < c.headD 0) :=
+  FindBlocks.findBlocks_partition m
+
+/-- C15.a (block finder, F2): the matrix IS block diagonal with respect to the blocks the model finds — the hypothesis
+    `hM` of `block_assembly_spans_exactly_the_unit_eigenspace` is discharged for the model's own block finder.
+    Entries joining two different blocks vanish in both directions; for a square matrix the same holds for every pair
+    of indices not sharing a block (including indices `≥ n`). The label propagation runs at most `n` sweeps; the proof
+    shows that `n` sweeps always reach the fixed point. -/
+theorem found_blocks_are_block_diagonal (m : IMat) :
+    (∀ b ∈ findBlocks m, ∀ c ∈ findBlocks m, b ≠ c → ∀ i ∈ b, ∀ j ∈ c, m.get i j = 0 ∧ m.get j i = 0) ∧
+    (m.square = true → ∀ i j, (¬ ∃ b ∈ findBlocks m, i ∈ b ∧ j ∈ b) → m.get i j = 0 ∧ m.get j i = 0) :=
+  ⟨FindBlocks.findBlocks_block_diagonal m, FindBlocks.findBlocks_block_diagonal_square m⟩
+
+/-- C15.a (F2 in the form of `BlockDiag.IsBlockDiag`): with `blk i` = the label the block finder gives to `i` (two
+    indices share a block of `findBlocks m` iff their labels agree), the matrix of `m` over any commutative ring is
+    block diagonal. -/
+theorem found_blocks_satisfy_IsBlockDiag {K : Type*} [CommRing K] (m : IMat) :
+    BlockDiag.IsBlockDiag (fun i : Fin m.size => FindBlocks.blockLabel m i.val)
+      (Matrix.of fun i j : Fin m.size => ((m.get i.val j.val : Int) : K)) ∧
+    ∀ i j : Fin m.size, FindBlocks.blockLabel m i.val = FindBlocks.blockLabel m j.val ↔
+      ∃ b ∈ findBlocks m, i.val ∈ b ∧ j.val ∈ b := by
+  refine ⟨fun i j h => ?_, fun i j => ?_⟩
+  · have := (FindBlocks.blockLabel_block_diagonal m i.2 j.2 h).1
+    simp [this]
+  · rw [FindBlocks.same_block_iff]
+    exact ⟨fun h => ⟨i.2, j.2, h⟩, fun h => h.2.2⟩
+
+/-- C15.a (block finder, F3, minimality): the blocks are not coarser than necessary — two indices of one block are
+    joined by a path of indices of that block along non-zero entries (`m[k][k'] ≠ 0` or `m[k'][k] ≠ 0`). -/
+theorem found_blocks_are_connected (m : IMat) :
+    ∀ b ∈ findBlocks m, ∀ i ∈ b, ∀ j ∈ b,
+      ∃ l : List Nat, l.head? = some i ∧ l.getLast? = some j ∧ (∀ k ∈ l, k ∈ b) ∧
+        ∀ s (hs : s + 1 < l.length), m.get l[s] l[s + 1] ≠ 0 ∨ m.get l[s + 1] l[s] ≠ 0 :=
+  FindBlocks.findBlocks_connected m
 
 /-- C15: rows/columns that are entirely zero carry no unit eigenvector, so compressing them away loses nothing -/
 theorem zero_rows_carry_no_unit_eigenvector {K ι : Type*} [CommRing K] [Fintype ι] (M : Matrix ι ι K) (S : ι → Prop)
